@@ -232,6 +232,22 @@ pub fn c08(cx: &mut Ctx) {
             }
         }
     }
+    // advancing is tied to the body being complete whatever the status: an unguarded proceed() in the middle
+    // of a length-delimited body yields nothing (also for redirects, whose successor state differs)
+    for status in [200u16, 301, 302, 307, 404] {
+        for n in [1usize, 2, 10] {
+            for k in 0..n {
+                cx.case("early");
+                let body: Vec<u8> = (0..n).map(|i| b'a' + (i % 26) as u8).collect();
+                let head = format!("HTTP/1.1 {} X\r\nLocation: /next\r\nContent-Length: {}\r\n\r\n", status, n).into_bytes();
+                if !to_recv_body(cx, "GET", &head) { continue; }
+                cx.meta(&format!("len {} {}", n, hx(&body)));
+                if k > 0 { cx.op(&format!("bread {} 100", hx(&body[..k]))); }
+                cx.op("canproceed");
+                cx.op("proceed!");
+            }
+        }
+    }
     // large N with windows much smaller than N
     for n in [65535u64, 65536, 70000, 4294967297, 18446744073709551615] {
         for _ in 0..3 {
